@@ -46,6 +46,10 @@ pub const KINDS: &[&str] = &[
     "{n} PRINT \"é\" ñ",            // illegal multi-byte character after multi-byte text
     "{n} PRINT \"ñ\";%é",           // illegal ASCII character followed by a multi-byte one
     "{n} DATA ça, là: 😊",          // illegal 4-byte character after DATA with multi-byte items
+    "{n}² PRINT 2",                 // digits continued by a non-ASCII numeric character
+    "１０ PRINT 1",                  // fullwidth digits where the line number would be
+    "½ cup of sugar",               // a vulgar fraction first
+    " {n}٣ X = 1",                  // indentation, digits, an Arabic-Indic digit
     "\t",                           // tab only
     "{n} PRINT \"X\"\x0c",           // form feed (a BASIC blank) at the end of a line
     "{n}\x0c",                       // line number followed by a form feed only
